@@ -6,6 +6,8 @@ C20-cache   every class-level handler cache that stores per-typecode tables (fou
             every read*: the condition guarding the rebuild must compare a size derived from the fetched
             entry itself with a live registry size.  A validation that does not mention the fetched entry
             (a shared stamp, a flag) cannot tell which algorithm classes are stale.
+C20-cache/stale  the branch that rebuilds an outdated entry does not read the outdated entry (nothing computed
+            before a later registration is carried over).
 C20-live    per-typecode tables are sized from / iterate over the live registry
             (Expr/UFLType._ufl_all_classes_, _ufl_num_typecodes_), never over a snapshot taken at import
             time (a module-level copy such as set(Expr._ufl_all_classes_)).
@@ -157,6 +159,19 @@ def run(ctx) -> Report:
                     f"if {norm(rebuild.test)}",
                     f"{what} caches per-typecode tables per algorithm class but the rebuild condition `{norm(rebuild.test)}` does not compare the size of the fetched entry `{var}` with the live type registry: a class used before a later type registration keeps a too-short table",
                 )
+            # (1b) nothing of the stale entry may flow into the rebuilt one
+            reassign = min((b.lineno for b in ast.walk(rebuild) if isinstance(b, ast.Assign) and any(isinstance(t, ast.Name) and t.id == var for t in b.targets)), default=10**9)
+            stale_reads = [n for st in rebuild.body for n in ast.walk(st) if isinstance(n, ast.Name) and n.id == var and isinstance(n.ctx, ast.Load) and n.lineno < reassign]
+            if stale_reads:
+                rep.violation(
+                    "C20-cache/stale",
+                    (init, stale_reads[0]),
+                    f"{var} read while rebuilding",
+                    f"{what}: the branch that rebuilds an outdated entry reads the outdated entry `{var}` (line {stale_reads[0].lineno}): whatever it keeps from it "
+                    "was computed before the later type registrations and is never refreshed",
+                )
+            else:
+                rep.ok("C20-cache/stale", (init, rebuild), f"{what}: the rebuilt entry is computed from the live class and registry only")
             # (2) table sized from / iterated over the live registry
             for n in ast.walk(rebuild):
                 if isinstance(n, ast.BinOp) and isinstance(n.op, ast.Mult) and isinstance(n.left, ast.List):
